@@ -28,7 +28,7 @@ OUTROOT = os.path.abspath(os.environ.get('VERIF_OUT', os.path.join(ROOT, 'out'))
 
 # per property: flavours and number of cases per tier  (flavour -> cases)
 BUDGET = {
-    'C06': {'quick': {'plain': 120000, 'asan': 40000}, 'thorough': {'plain': 1200000, 'asan': 500000}},
+    'C06': {'quick': {'plain': 120000, 'asan': 24000}, 'thorough': {'plain': 1200000, 'asan': 500000}},
     'C08': {'quick': {'plain': 200000, 'asan': 16000}, 'thorough': {'plain': 3000000, 'asan': 300000}},
     'C09': {'quick': {'plain': 200000, 'asan': 16000}, 'thorough': {'plain': 3000000, 'asan': 300000}},
     'C10': {'quick': {'plain': 200000, 'asan': 16000}, 'thorough': {'plain': 3000000, 'asan': 300000}},
@@ -229,8 +229,9 @@ def determinism_probe(fl, prop, seed, cases, outdir, thorough):
                         i, v = line.split()
                         h[int(i)] = v
             res.append(h)
-    bad = [i for i in range(cases) if res[0].get(i) is None or res[0].get(i) != res[1].get(i)]
-    return {'flavour': fl, 'cases': cases, 'worker_counts': [min(16, NPROC), 3], 'mismatching_cases': len(bad), 'first_bad': bad[:5]}
+    bad = [i for i in range(cases) if i in res[0] and i in res[1] and res[0][i] != res[1][i]]
+    both = sum(1 for i in range(cases) if i in res[0] and i in res[1])
+    return {'flavour': fl, 'cases': cases, 'cases_compared': both, 'worker_counts': [min(16, NPROC), 3], 'mismatching_cases': len(bad), 'first_bad': bad[:5]}
 
 
 def valgrind_pass(prop, seed, cases, outdir):
@@ -430,7 +431,7 @@ def main():
 
     # determinism probe: part of every run (DESIGN 9.2); a mismatch is a harness failure, never a property verdict
     det = determinism_probe('plain' if 'plain' in budgets else list(budgets.keys())[0], prop, seed, 300 if tier == 'quick' else 3000, outdir, tier == 'thorough') \
-        if not crashes else {'skipped': 'worker crashes in this run'}
+        if not crashes and not reported else {'skipped': 'violations or worker crashes in this run: the verdict does not depend on the probe'}
     if det.get('mismatching_cases'):
         log('NON-DETERMINISTIC: %d of %d cases gave different history hashes at different worker counts: %s' % (det['mismatching_cases'], det['cases'], det['first_bad']))
         rc = max(rc, 2)
